@@ -136,9 +136,22 @@ Definition effective_writable (allw : bool) (resw more : mask) : mask :=
   end.
 
 (* WithUpdateMask followed by WithMoreUpdateMask / WithMoreUpdatePaths: a nil update mask ("all writable
-   fields") stays nil; otherwise the extra paths are added (fieldmaskpb.Union, normalized). [moreu] = None
-   when the option is not used. *)
+   fields") stays nil; otherwise the extra paths are appended AS GIVEN (fix 3a4e7e7: no normalization here,
+   so that Validate sees every path either option was given; Merge normalizes a copy). [moreu] = None when
+   the option is not used. *)
 Definition effective_update (um moreu : mask) : mask :=
+  match moreu with
+  | None => um
+  | Some extra =>
+      match um with
+      | None => None
+      | Some ps => Some (ps ++ extra)
+      end
+  end.
+
+(* before 3a4e7e7: fieldmaskpb.Union(update, extra), which normalizes — a path nested below another path
+   of either mask disappears before validation *)
+Definition effective_update_v0 (um moreu : mask) : mask :=
   match moreu with
   | None => um
   | Some extra =>
